@@ -744,7 +744,67 @@ def rule_f(ctx):
     ctx.floor(R, 3)
 
 
+def rule_g(ctx):
+    R = "C18.g"
+    ctx.rule(R, "restoring a written configuration is the identity: for the corrections that persist a configuration dictionary (return_config -> "
+             "save -> load -> _init_from_config), _init_from_config folded on exactly what return_config returns gives back the attributes the "
+             "configuration was written from -- a value that is converted again on the way in (a padded roi padded once more) makes the reloaded "
+             "correction differ from the saved one")
+    from ..fold import Folder, Obj, Opaque, Raised, Refuse, Sym, mentions_unknown
+    from ..terms import nf
+
+    m = ctx.model
+    n = 0
+    for k in [c for mod in m.modules.values() for c in mod.classes.values()]:
+        rc, ini = k.methods.get("return_config"), k.methods.get("_init_from_config")
+        if rc is None or ini is None or len(rc.params) != 1 or len(ini.params) != 2:
+            continue
+        n += 1
+        ctx.instance(R)
+        ctx.consult(k.module.name)
+        # attributes the written configuration is made of: return {"key": self.attr, ...}
+        rets = [r.value for r in ast.walk(rc.node) if isinstance(r, ast.Return) and isinstance(r.value, ast.Dict)]
+        if len(rets) != 1:
+            ctx.ob(R, rc.qname, f"{k.name}: return_config returns one dictionary of attributes", False, "dictionary literal not found", rc.node)
+            continue
+        pairs = {kk.value: vv.attr for kk, vv in zip(rets[0].keys, rets[0].values) if isinstance(kk, ast.Constant) and isinstance(vv, ast.Attribute) and isinstance(vv.value, ast.Name) and vv.value.id == rc.params[0]}
+        if len(pairs) != len(rets[0].keys):
+            ctx.ob(R, rc.qname, f"{k.name}: return_config writes attributes verbatim", False, "an entry that is not `self.<attribute>` -- not found in a comparable form (C18.e judges it)", rc.node)
+            continue
+        tokens = {}
+        for key, attr in pairs.items():
+            # a roi as it is stored: a tuple of slices with symbolic bounds; everything else an opaque token
+            tokens[key] = (slice(Opaque("int", "a0"), Opaque("int", "b0")), slice(Opaque("int", "a1"), Opaque("int", "b1"))) if "roi" in key else Opaque("cfg", f"CFG_{key}")
+        so = Obj("self", {"__class__": k.name, "base": Obj("base", {"shape": (Opaque("int", "N0"), Opaque("int", "N1"), 3), "img": Opaque("arr", "BASE")})})
+        fo = Folder(symbolic=True)
+        fo.func_stack.append(ini.node)
+        fo.fold_all_methods = True
+        try:
+            fo.call(ini.node, [so, dict(tokens)])
+        except (Refuse, Raised) as e:
+            ctx.ob(R, ini.qname, f"{k.name}: _init_from_config(return_config()) restores every attribute", False, f"fold not found to be possible: {e}", ini.node)
+            continue
+        bad, und = [], []
+        for key, attr in pairs.items():
+            got = so.fields.get(attr)
+            if got is tokens[key] or (isinstance(tokens[key], tuple) and isinstance(got, tuple) and len(got) == len(tokens[key]) and all(a_ is b_ for a_, b_ in zip(got, tokens[key]))):
+                continue
+            if got is None or mentions_unknown(got):
+                und.append(attr)
+            elif isinstance(got, Sym) or (isinstance(got, (list, tuple)) and got is not tokens[key]):
+                bad.append(f"self.{attr} becomes {nf(got)[:110]} when the written value of '{key}' is read back")
+            else:
+                und.append(attr)
+        if bad:
+            ctx.ob(R, ini.qname, f"{k.name}: _init_from_config(return_config()) restores every attribute", False,
+                   "; ".join(bad[:2]) + ": the stored value is converted a second time on load, the reloaded correction is not the saved one", ini.node, evidence=True)
+        else:
+            ctx.ob(R, ini.qname, f"{k.name}: _init_from_config(return_config()) restores every attribute", not und, f"attributes {und} not found by the fold", ini.node)
+    ctx.floor(R, 1)
+
+
 def run(ctx):
+    ctx.guard(rule_g, ctx)
     ctx.guard(rule_f, ctx)
     ctx.guard(rule_a, ctx)
     ctx.guard(rule_b, ctx)
